@@ -11,9 +11,11 @@ import (
 	"fmt"
 	"os"
 	"os/exec"
+	"path/filepath"
 	"reflect"
 	"runtime"
 	"runtime/debug"
+	"strconv"
 	"strings"
 	"testing"
 
@@ -600,4 +602,83 @@ func TestVerifC14RegressDeep(t *testing.T) {
 		}
 		vstats.Case("regress deep "+kind, true, "regress")
 	}
+}
+
+// ---------- the monitor process itself ----------
+
+func init() {
+	if out := os.Getenv("VERIF_C14_MONITOR"); out != "" {
+		// this process is the monitor: it reads the crash text from its standard input like the real
+		// child does; the counter it would increment is written to a file instead
+		incrementCounter = func(name string) {
+			f, _ := os.OpenFile(out, os.O_APPEND|os.O_CREATE|os.O_WRONLY, 0666)
+			fmt.Fprintf(f, "%q\n", name)
+			f.Close()
+		}
+		os.Setenv("TMPDIR", filepath.Dir(out)) // where a malformed report is saved
+		Child()
+		os.Exit(5) // not reached
+	}
+}
+
+// TestVerifC14Monitor feeds generated crash texts of up to a few MiB to the monitor
+// process (crashmonitor.Child) through a pipe, as the parent's dying gasp arrives, and
+// compares the counter it records with the name derived in-process from the same text:
+// what the monitor receives is what it reports, whatever the size of the panic message.
+func TestVerifC14Monitor(t *testing.T) {
+	defer vstats.Flush()
+	exe, err := os.Executable()
+	if err != nil {
+		t.Fatal(err)
+	}
+	base := t.TempDir()
+	real := c14RealPCs()
+	n := 0
+	rapid.Check(t, func(t *rapid.T) {
+		n++
+		dir := filepath.Join(base, fmt.Sprint(n))
+		os.MkdirAll(dir, 0777)
+		defer os.RemoveAll(dir)
+		r := c14GenReport(t, real)
+		d := c14GenDecor(t, "A")
+		size := rapid.SampledFrom([]int{0, 0, 100 << 10, 1<<20 - 64, 1 << 20, 1<<20 + 4096, 3 << 20}).Draw(t, "messageBytes")
+		if size > 0 {
+			msg := "panic: " + strings.Repeat("large panic value ", size/18)
+			if rapid.Bool().Draw(t, "multiLineMessage") {
+				msg = strings.ReplaceAll(msg, "value large", "value\n\tlarge")
+			}
+			d.preamble = append(d.preamble, msg)
+		}
+		text := c14Render(r, d)
+		want, werr := c14Name(t, text)
+		out := filepath.Join(dir, "recorded")
+		cmd := exec.Command(exe)
+		cmd.Env = append(os.Environ(), "VERIF_C14_MONITOR="+out)
+		cmd.Stdin = strings.NewReader(text)
+		cmd.Run()
+		got, _ := os.ReadFile(out)
+		var recorded []string
+		for _, l := range strings.Split(strings.TrimSpace(string(got)), "\n") {
+			if l != "" {
+				s, _ := strconv.Unquote(l)
+				recorded = append(recorded, s)
+			}
+		}
+		desc := fmt.Sprintf("text of %d bytes (message %d bytes), in-process result (%.40q, %v)", len(text), size, want, werr)
+		switch {
+		case strings.Count(text, "\n") < 2:
+			if len(recorded) != 0 {
+				t.Fatalf("%s: not a crash report, but the monitor recorded %q", desc, recorded)
+			}
+		case werr != nil:
+			if len(recorded) != 1 || recorded[0] != "crash/malformed" {
+				t.Fatalf("%s: the monitor recorded %q, want crash/malformed", desc, recorded)
+			}
+		default:
+			if len(recorded) != 1 || recorded[0] != want {
+				t.Fatalf("%s: the monitor recorded %.200q, the name derived from the text it was sent is %.200q", desc, recorded, want)
+			}
+		}
+		vstats.Case(fmt.Sprintf("bytes=%d message=%d err=%v", len(text), size, werr != nil), size >= 1<<20-64 && werr == nil, fmt.Sprintf("messageMiB:%d", size>>20), fmt.Sprintf("err:%v", werr != nil))
+	})
 }
